@@ -23,7 +23,11 @@ Inductive c13case :=
 (* obsOld = RendezvousHash(key, servers, k), obsNew = the same with [removed] taken out *)
 | CRemove (key : bytes) (servers : list bytes) (removed : bytes) (obsOld obsNew : list bytes)
 (* load-share test: among the sampled keys, [server] (one of n) owns [count] keys *)
-| CShare (n : N) (server : bytes) (count : N).
+| CShare (n : N) (server : bytes) (count : N)
+(* a live node configured with [configured] has served and failed requests (the owners of some keys were
+   absent); [after] is the list it routes with afterwards, [ownerBefore]/[ownerAfter] the owner of [key] computed
+   by the real function from the configured list and from that list *)
+| CNode (key : bytes) (configured after : list bytes) (ownerBefore ownerAfter : bytes).
 
 
 Definition verdict (c : c13case) : N :=
@@ -41,6 +45,9 @@ Definition verdict (c : c13case) : N :=
   | CRemove key servers removed oOld oNew =>
       first_fail [ (obeq (hd_error oOld) (Some removed) || obeq (hd_error oNew) (hd_error oOld), 131) ]
   | CShare n server count => first_fail [ (negb (count =? 0), 141) ]
+  | CNode key configured after oB oA =>
+      first_fail [ (lbeq oB oA, 151); (llbeq configured after, 152);
+                   (obeq (Some oB) (owner xxh64 key configured), 202) ]
   end.
 
 Fixpoint bad_from (i : N) (cs : list c13case) : list (N * N) :=
